@@ -310,6 +310,8 @@ class Models(object):
             return [(path, VInt(z3.StrToCode(args[0].t)))]
         if obj is binascii.hexlify or obj is binascii.b2a_hex:
             return self._hexlify(ex, path, args[0])
+        if obj is sorted and len(args) == 1 and set(kw) <= {'key'} and not all(concrete_of(a)[0] for a in args):
+            return self._sorted(ex, path, args[0], kw.get('key'))
         if is_exc_class(obj):
             return None   # generic instantiation
         # pure concrete call
@@ -320,6 +322,72 @@ class Models(object):
                 return ex.raise_(path, type(e), str(e))
             return [(path, ex.lift_obj(r))]
         return None
+
+    def _sorted(self, ex, path, seq, key):
+        """sorted() of a concrete-spine sequence (<= 4 elements) with symbolic keys: one outcome per
+        permutation, guarded by 'this permutation is the stable ascending order' (ints, strings,
+        tuples / lists of those compared lexicographically)"""
+        import itertools
+        from .exec import Unsupported, Raise
+        items = ex.iter_concrete(path, seq)
+        if len(items) > 4:
+            raise Unsupported('sorted() of more than 4 symbolic elements')
+        states = [(path, [])]
+        for x in items:
+            nxt = []
+            for p, acc in states:
+                if isinstance(acc, Raise):
+                    nxt.append((p, acc))
+                    continue
+                if key is None:
+                    nxt.append((p, acc + [x]))
+                    continue
+                for p2, k in ex.call(p, key, [x], {}):
+                    nxt.append((p2, k if isinstance(k, Raise) else acc + [k]))
+            states = nxt
+
+        def flat(p, k):
+            if isinstance(k, (VInt, VStr, VBytes)):
+                return [k]
+            if isinstance(k, (VTuple, VList)):
+                out = []
+                for y in ex.iter_concrete(p, k):
+                    out.extend(flat(p, y))
+                return out
+            raise Unsupported('sorted() key %r' % (k,))
+
+        def lt_eq(a, b):
+            if len(a) != len(b) or any(type(x) is not type(y) for x, y in zip(a, b)):
+                raise Unsupported('sorted() keys of different shapes')
+            lt = z3.BoolVal(False)
+            eq = z3.BoolVal(True)
+            for x, y in reversed(list(zip(a, b))):
+                lt = z3.Or(x.t < y.t, z3.And(x.t == y.t, lt))
+            for x, y in zip(a, b):
+                eq = z3.And(eq, x.t == y.t)
+            return lt, eq
+        out = []
+        for p, keys in states:
+            if isinstance(keys, Raise):
+                out.append((p, keys))
+                continue
+            fk = [flat(p, k) for k in keys]
+            n = len(items)
+            for perm in itertools.permutations(range(n)):
+                cond = []
+                for j in range(n - 1):
+                    a, b = perm[j], perm[j + 1]
+                    lt, eq = lt_eq(fk[a], fk[b])
+                    cond.append(z3.Or(lt, z3.And(eq, z3.BoolVal(a < b))))
+                c = z3.simplify(z3.And(*cond)) if cond else z3.BoolVal(True)
+                if z3.is_false(c):
+                    continue
+                if ex.feasible(p, c) == 'no':
+                    continue
+                q = p.fork()
+                q.assume(c)
+                out.append((q, ex.new_list(q, [items[i] for i in perm])))
+        return out
 
     def pure_concrete(self, obj):
         return obj in (sorted, sum, any, all, hex, oct, bin, divmod, round)
@@ -866,6 +934,17 @@ class Models(object):
                 t = mk_str(parts[0])
                 for a, lit in zip(args, parts[1:]):
                     t = z3.Concat(t, a.t, mk_str(lit))
+                return [(path, VStr(z3.simplify(t)))]
+            if ok and c.count('{}') == c.count('{') and c.count('{}') == len(args) >= 2 and all(isinstance(a, (VStr, VInt)) and not isinstance(a, VBool) for a in args) and not kw:
+                # decimal text of an int: exact for every integer (z3 int.to.str is "" for negatives)
+                def txt(a):
+                    if isinstance(a, VStr):
+                        return a.t
+                    return z3.If(a.t >= 0, z3.IntToStr(a.t), z3.Concat(mk_str('-'), z3.IntToStr(-a.t)))
+                parts = c.split('{}')
+                t = mk_str(parts[0])
+                for a, lit in zip(args, parts[1:]):
+                    t = z3.Concat(t, txt(a), mk_str(lit))
                 return [(path, VStr(z3.simplify(t)))]
             r = VStr(ex.fresh_str(path, 'format'))
             if ok and c.count('{}') == 1 and len(args) == 1 and isinstance(args[0], VInt) and not kw:
